@@ -25,6 +25,16 @@ CHECKS = {
             "DESIGN.md 6/C15",
             "Generated entry sets with Ref columns (Vow/Bound created before any entry so forward, backward, self references and chains exist; constant Ref columns), sorted and unsorted, up to 6000 entries (parallel sort and parallel index assignment); the value read back for a Ref column (real reader and independent decoder) must be the model's final position of the target, and every Bound returned by add_entry must report its entry's final position after finalisation.",
             "Trusts proptest and the harness' independent sort of the distinct keys; rayon scheduling inside the creator is not controlled, only exercised (sizes above its sequential thresholds)."),
+    "C13": ("E1-proptest", "exploration",
+            "property-based testing (proptest): generated view programs vs. slice arithmetic on the known bytes",
+            "DESIGN.md 6/C13",
+            "Generated view programs (nested cut to depth >=3, as_slice, ByteSlice->ByteRegion, get_slice, streams through stream() and From<ByteRegion> with generated read-size sequences) are run over a stored content that is not the first blob of its source, for sources memory / file / moved-to-memory (mmap >= 4 KiB) / lz4, lzma, zstd background-decoded clusters / a harness-fed decoder region; every view must yield exactly the model slice and consistent size/offset/size_left accounting.",
+            "Trusts proptest and slice arithmetic on content bytes the harness derived itself; short reads are accepted (Read contract); out-of-range arguments are caller errors and not generated; the mmap source needs the cfg(jubako_verif) in_memory hook."),
+    "C16": ("E1-proptest", "exploration",
+            "property-based testing (proptest): generated hint sequences vs. independent decode of the cluster layout",
+            "DESIGN.md 6/C16",
+            "Generated insertion sequences mixing hints, all algorithms and levels, with and without the dedup adder; the independent decoder locates every content on disk: hint No / uncompressed pack => cluster nibble 0 and the bytes verbatim in the file; hint Yes in a compressing pack => cluster nibble of the pack's algorithm and a payload that the algorithm's own library decodes to the content; dedup adder => same address iff same bytes, one stored content per distinct byte string.",
+            "Trusts the independent decoder (no jubako code) and the lz4/xz2/zstd crates; Detect is only required to round-trip."),
 }
 
 NOT_YET = {
